@@ -107,14 +107,16 @@ def r1_spec_tables(ctx, F):
             reach_p = dict((p_, ivs.reach_under([(op_sw, p_[0]), (ret_sw, p_[1])])) for p_ in all_pairs)
             for (o, r) in all_pairs:
                 both = reach_p[(o, r)]
-                acc = False
-                for (i, si, st) in ivs.assigns(lambda st: st['lhs']['l'] == 0 and not st['lhs']['p']):
-                    if i not in both:
-                        continue
-                    rv = st['rv']
-                    if rv['k'] == 'use' and rv['op']['k'] == 'const' and rv['op'].get('val') == 0:
-                        continue
-                    acc = True
+                # can the step be accepted for this (op, ret)? - the result may be a constant handed through
+                # a temporary (`matches!(ret, Pat if guard)`), so it is resolved under the constraints
+                from common import possible_results
+                res_ = possible_results(ivs, both)
+                acc = (True in res_) or ('?' in res_ and any(
+                    i in both and not (st['rv']['k'] == 'use' and st['rv']['op']['k'] == 'const')
+                    for (i, si, st) in ivs.assigns(lambda st: st['lhs']['l'] == 0 and not st['lhs']['p'])
+                    if not (st['rv']['k'] == 'use' and st['rv']['op'].get('k') in ('copy', 'move') and
+                            ivs.locals[st['rv']['op']['place']['l']]['ty'] == 'bool' and
+                            '?' not in possible_results(ivs, both, st['rv']['op']['place']['l']))))
                 for c in ivs.calls:
                     if c.bb in both and c.dest['l'] == 0 and not c.dest['p']:
                         acc = True
@@ -129,7 +131,8 @@ def r1_spec_tables(ctx, F):
             def payload_state_tests(b):
                 out = []
                 for c in b.calls_to('PartialEq::eq', 'PartialEq::ne'):
-                    vs = [resolve_arg(b, b.val(a)) for a in c.args[:2]]
+                    vs = [noref(b.trace(resolve_arg(b, b.val(a)), ('Option::as_ref', 'Option::as_deref', 'Option::as_mut',
+                                                                  'Deref::deref'))) for a in c.args[:2]]
                     roots = sorted(v.key for v in vs if v.kind == 'arg')
                     if roots == [1, 2]:
                         eq = c.short.endswith('::eq') or c.dshort.endswith('::eq')
@@ -146,27 +149,58 @@ def r1_spec_tables(ctx, F):
                 return 'unconditional'
             t_inv, t_ivs = payload_state_tests(inv), payload_state_tests(ivs)
             if t_inv or t_ivs:
-                pol_inv, pol_ivs = {}, {}
+                # cell by cell: for every (kind of op, shape of the object state, payload == state?) the return
+                # kinds invoke can produce are exactly the ones is_valid_step can accept - independent of how
+                # the guards are nested, merged (`is_none_or`) or ordered
+                from common import possible_results
+
+                def state_switches(b):
+                    out = []
+                    for sw in b.switches:
+                        if sw.kind != 'variant':
+                            continue
+                        on = noref(b.trace(resolve_arg(b, sw.on), ('Option::as_ref', 'Option::as_deref', 'Option::as_mut',
+                                                                   'Deref::deref')))
+                        if on.kind == 'arg' and on.key == 1 and on.fields():
+                            out.append(sw)
+                    return out
+
+                def not_edges(sws, label):
+                    return [e for sw in sws for e in sw.edges_not(label)]
+                st_i, st_v = state_switches(inv), state_switches(ivs)
+                shapes = variant_names(st_i) or variant_names(st_v) or [None]
+                cells = [(sh, eqv) for sh in shapes for eqv in (True, False)]
+                prod_c, acc_c = {}, {}
                 for o in ops:
-                    blocks = inv.reach_under([(op_sw_i, o)])
-                    for (i, si, st) in inv.assigns(lambda st: st['rv']['k'] == 'agg' and st['rv'].get('adt') == retadt):
-                        if i in blocks:
-                            pol_inv.setdefault((o, st['rv']['variant']), set()).add(polarity(inv, t_inv, i))
-                for (o, r) in accepted:
-                    both = reach_p[(o, r)]
-                    for (i, si, st) in ivs.assigns(lambda st: st['lhs']['l'] == 0 and not st['lhs']['p']):
-                        rv = st['rv']
-                        if i in both and not (rv['k'] == 'use' and rv['op']['k'] == 'const' and rv['op'].get('val') == 0):
-                            pol_ivs.setdefault((o, r), set()).add(polarity(ivs, t_ivs, i))
-                for pr in sorted(set(pol_inv) | set(pol_ivs)):
-                    a, b_ = pol_inv.get(pr, set()), pol_ivs.get(pr, set())
-                    if not a or not b_:
-                        continue
-                    ctx.check(a == b_, rule, 'guard-polarity:%s->%s' % pr, ivs,
-                              good='%s->%s is produced and accepted under the same payload/state condition %s' % (pr[0], pr[1], sorted(a)),
-                              bad='%s: invoke produces %s for %s when %s, but is_valid_step accepts it when %s: a '
-                                  'step is accepted that invoking the operation could not have returned (or vice '
-                                  'versa)' % (selfty, pr[1], pr[0], sorted(a), sorted(b_)))
+                    for (sh, eqv) in cells:
+                        cut = not_edges(op_sw_i, o) + (not_edges(st_i, sh) if sh else [])
+                        for (eq_e, ne_e) in t_inv:
+                            cut += ne_e if eqv else eq_e
+                        blocks = inv.reach([0], cut_edges=cut)
+                        got = set(st['rv']['variant'] for (i, si, st) in inv.assigns(
+                            lambda st: st['rv']['k'] == 'agg' and st['rv'].get('adt') == retadt) if i in blocks)
+                        # a cell that cannot occur (payload == state while the object holds nothing) is skipped
+                        # when both functions agree that it yields what the other polarity yields
+                        prod_c[(o, sh, eqv)] = got
+                        for r in rets:
+                            cutv = not_edges(op_sw, o) + not_edges(ret_sw, r) + (not_edges(st_v, sh) if sh else [])
+                            for (eq_e, ne_e) in t_ivs:
+                                cutv += ne_e if eqv else eq_e
+                            live = ivs.reach([0], cut_edges=cutv)
+                            res_ = possible_results(ivs, live)
+                            if True in res_ or '?' in res_:
+                                acc_c.setdefault((o, sh, eqv), set()).add(r)
+                for pr in sorted(set((o, r) for (o, sh, e_) in prod_c for r in prod_c[(o, sh, e_)]) |
+                                 set((o, r) for k_ in acc_c for r in acc_c[k_] for o in [k_[0]])):
+                    o, r = pr
+                    diff = [(sh, e_) for (oo, sh, e_) in prod_c if oo == o and
+                            ((r in prod_c[(oo, sh, e_)]) != (r in acc_c.get((oo, sh, e_), set())))]
+                    ctx.check(not diff, rule, 'guard-polarity:%s->%s' % pr, ivs,
+                              good='%s->%s is produced and accepted under the same object-state / payload conditions' % pr,
+                              bad='%s: invoke produces %s for %s under other conditions than is_valid_step accepts it '
+                                  '(disagreement for object state / payload==state in %s): a step is accepted that '
+                                  'invoking the operation could not have returned (or vice versa)' %
+                                  (selfty, pr[1], pr[0], diff))
             ctx.check(produced == accepted and bool(produced), rule, 'accepted-pairs==produced-pairs', ivs,
                       good='is_valid_step accepts exactly the (op, ret) kinds invoke produces: %s' % sorted(produced),
                       bad='%s: is_valid_step can accept %s but invoke can produce %s: only-accepted %s, '
